@@ -371,6 +371,7 @@ func c16AssumeAssert(r *core.Run) {
 func runC16(r *core.Run) (bool, string) {
 	r.SetRule("strings: boundary values (10^k, 10^k±1, 9·10^k, 2^k, 2^k±1, repdigits, 0, MaxUint64) plus seeded random values with spread digit counts, each compared with a repeated-division decimal conversion and entered in a string→value map (injectivity over everything evaluated), distinct by value; " +
 		"MapClear: 8 key/value type combinations (incl. a named map type, struct/interface keys, pointer/slice values) × sizes {0,1,2,100,10000}, distinct by (type,size), plus a separate NaN-key atom; Assume/Assert: both functions × both arguments, repeated; " +
+		"MapClear key-type shapes (mapclear_shape_* keys): every basic kind, a defined type over each, structs / arrays with and without a float component at any depth, pointer, channel and interface keys × 6 value types (basic, struct, slice, map, pointer, func) × {map[K]V, defined map type} × contents {nil map, empty, 1, many, several NaN-bearing keys alone / among ordinary keys wherever the key type admits a value unequal to itself}, distinct by (map type, contents); " +
 		"WaitTimeout: schedules = class {none, signal-before, signal-during, signal-at-timeout, signal-after-timeout, broadcast-during with 1–4 waiters, storm} × {fresh Cond, Cond reused after 1–3 timed-out calls}, distinct by (class, state, timeout, waiters, earlier calls); lock state observed through a tracking sync.Locker given to sync.NewCond; " +
 		"several timed waiters on one Cond (waittimeout_multi_* keys): full grid k ∈ {2,3,4} WaitTimeout callers parked in start order × timeouts {equal, increasing, decreasing, all 60 s} × signals {none, one Signal, Signals for all but one, Broadcast} × sent {before, between, after} the deadlines × {fresh, reused Cond} × a plain cond.Wait waiter {absent, at the head, second} in the queue; every timed waiter must be back by its own timeout + Δ with the lock held, and j Signals (a Broadcast) sent ≥ 20 ms before the first deadline while all were parked must bring back ≥ j (all) within Δ; " +
 		"class signal-held-across-expiry (waittimeout_hold_* keys): full grid timeout × (signaller takes the lock −20…+5 ms around the expiry) × (keeps it 0…40 ms after Signal/Broadcast) on fresh and reused Conds, run in child processes that contain no goroutine or timer besides caller, signaller and WaitTimeout's own; " +
@@ -391,6 +392,7 @@ func runC16(r *core.Run) (bool, string) {
 	}
 	c16Strings(r)
 	c16Maps(r)
+	c16MapShapes(r)
 	c16AssumeAssert(r)
 	c16WaitTimeout(r)
 	c16WaitTimeoutMulti(r)
@@ -411,6 +413,9 @@ func runC16(r *core.Run) (bool, string) {
 				return false, "concurrency layer (-race child): fewer than 40000 calls or fewer than 8 rounds in which all goroutines were running at once"
 			}
 		}
+	}
+	if r.NumViolations() == 0 && (r.GetCount("mapclear_shape_cases") < 200 || r.GetCount("mapclear_shape_cases_with_nan_bearing_keys") < 30) {
+		return false, "MapClear key-shape family: fewer than 200 cases or fewer than 30 with NaN-bearing keys"
 	}
 	if r.Evals() < 10000 {
 		return false, "too few primitive calls evaluated"
